@@ -142,12 +142,20 @@ RasterCentres(reg, n, vals, o) ==
   LET m == reg.margin cells == n + 2*m
       fg == Premul(TopColor(reg).rgba) bg == Premul(reg.bg.rgba)
       inside(cx, cy) == cx >= m /\ cx < m + n /\ cy >= m /\ cy < m + n
-  IN /\ o.cells = cells /\ Len(o.centre) = cells
-     /\ \A cy \in 0..cells-1 : \A cx \in 0..cells-1 :
-          LET idx == CentreIdx(o, cx, cy) IN
+      \* very large margins: the sensor reports a window of cells around the symbol (first cell `win`, n + 8 cells wide) cell by
+      \* cell and, for the cells it probed outside it, only the palette entries found there (all of them must be the background)
+      w0 == IF "win" \in DOMAIN o THEN o.win ELSE 0
+      wn == IF "win" \in DOMAIN o THEN n + 8 ELSE cells
+      cidx(cx, cy) == (o.centre[cy - w0 + 1][((cx - w0) \div 6) + 1] \div (16^((cx - w0) % 6))) % 16
+  IN /\ o.cells = cells /\ Len(o.centre) = wn
+     /\ ("win" \in DOMAIN o => o.win = m - 4 /\ \A i \in DOMAIN o.outer : o.outer[i] < Len(o.palette) /\ ColNear(o.palette[o.outer[i] + 1], bg))
+     /\ \A cy \in w0..(w0 + wn - 1) : \A cx \in w0..(w0 + wn - 1) :
+          LET idx == cidx(cx, cy) IN
           /\ idx < Len(o.palette)
           /\ ColNear(o.palette[idx+1], IF inside(cx, cy) /\ DarkAt(vals, cy - m, cx - m) THEN fg ELSE bg)
-RasterUniform(reg, n, o) == LET cells == n + 2*reg.margin IN
-  Len(o.uniform) = cells /\ \A cy \in 0..cells-1 : \A cx \in 0..cells-1 : UniformAt(o, cx, cy)
+RasterUniform(reg, n, o) == LET cells == n + 2*reg.margin
+                                w0 == IF "win" \in DOMAIN o THEN o.win ELSE 0
+                                wn == IF "win" \in DOMAIN o THEN n + 8 ELSE cells IN
+  Len(o.uniform) = wn /\ \A cy \in 0..wn-1 : \A cx \in 0..wn-1 : UniformAt(o, cx, cy)
 RasterPng(o) == o.png = 1 /\ o.png_w = o.w /\ o.png_h = o.h /\ o.png_equal = 1
 =============================================================================
